@@ -62,6 +62,9 @@ class Project:
                 name = s.py() if isinstance(s, Str) else None
                 if name is not None and name.startswith('HOLE_') and name[5:] in self.holes:
                     v.f['sym'] = self.holes[name[5:]]
+                elif name is not None and name.startswith('r#HOLE_') and name[7:] in self.holes:
+                    # raw identifier: proc_macro2 keeps the r# prefix in the identifier's text
+                    v.f['sym'] = Str('r#').concat(self.holes[name[7:]])
                 return
             if v.ty == '#lit':
                 val = v.f.get('value')
